@@ -106,7 +106,8 @@ def c_bs_without_be(s, r): s.flags = (s.flags | 0x10) & ~0x08
 CEREMONY = {
     "credential-alg-alias-not-in-allowed-list": c_alg_alias, "id-not-b64-rawid:padded-1": c_id_fault("padded-1"), "id-not-b64-rawid:last-char-spare-bits": c_id_fault("last-char-spare-bits"), "id-not-b64-rawid:newline-appended": c_id_fault("newline-appended"),
     "id-not-b64-rawid:standard-alphabet": c_id_fault("standard-alphabet"), "id-not-b64-rawid:char-appended": c_id_fault("char-appended"), "id-not-b64-rawid:empty": c_id_fault("empty"),
-    "origin-alias-spelling": c_origin_alias, "rp-id-hash-of-another-ceremony-string": c_rp_hash_of_other_string, "client-data-is-a-json-string-wrapping-the-object": c_cd_wrapped_as_string, "origin-expected-read-as-pattern": c_origin_pattern, "challenge-base64url-alias": c_challenge_b64_alias, "allowed-algorithms-empty": c_algs_empty,
+    "origin-alias-spelling": c_origin_alias, "rp-id-hash-of-another-ceremony-string": c_rp_hash_of_other_string, "client-data-is-a-json-string-wrapping-the-object": c_cd_wrapped_as_string, "origin-expected-read-as-pattern": c_origin_pattern, "challenge-base64url-alias": c_challenge_b64_alias, "challenge-is-a-text-encoding-of-the-expected-one-or-vice-versa": authcat.challenge_text_relation,
+    "characters-moved-across-the-boundary-between-two-client-data-members": authcat.member_boundary_shifted, "allowed-algorithms-empty": c_algs_empty,
     "cd-type": c_type, "challenge-other": c_challenge_other, "challenge-trunc": c_challenge_trunc, "origin-other": c_origin_other,
     "origin-substring": c_origin_substring, "origin-list-absent": c_origin_list_absent, "token-binding-status": c_token_binding,
     "rp-id-other": c_rp_other, "up-clear-required": c_up_clear, "uv-clear-required": c_uv_clear, "no-attested-data": c_no_attested,
